@@ -464,6 +464,8 @@ Holds(c, r) ==
       [] c = "nexus_rows" -> NoErr(r) => NexusTableOK(r)
 
 (* ---- premise: what the quantifier covers *)
+DistinctCoords(tab) == \A i, j \in Idx(tab) :
+    i # j => <<RName(tab[i]), RS(tab[i]), RE(tab[i])>> # <<RName(tab[j]), RS(tab[j]), RE(tab[j])>>
 RowSane(seg) == /\ RPfx(seg) \in ExPrefixes /\ 0 <= RS(seg) /\ RS(seg) < RE(seg) /\ RProbes(seg) >= 0
 TabSane(tab) == /\ \A k \in Idx(tab) : RowSane(tab[k])
                 /\ \A k \in Idx(tab) : RPfx(tab[k]) = FirstPfx(tab)         \* one naming style per table
@@ -482,6 +484,9 @@ Premise(r) ==
     ELSE /\ r.samples # <<>>
          /\ \A k \in Idx(r.samples) : TabSane(Tab(r.samples[k])) /\ Tab(r.samples[k]) # <<>>
          /\ r.op = "nexus" => Len(r.samples) = 1
+         (* jtv / cdt: the bins of one file are distinct regions (no two rows with the same chromosome,  *)
+         (* start and end), so "the same bins" does not depend on how a reader orders tied rows          *)
+         /\ r.op \in MergeOps => \A k \in Idx(r.samples) : DistinctCoords(Tab(r.samples[k]))
 
 ALayer(r) ==
     CASE r.op = "bed"   -> ABed(r)
